@@ -6,7 +6,7 @@ import graphlib as gl
 from common import run_driver
 
 RULE = ('random single-rooted DAG ontologies under HP:0000001 (n <= 14; 25 thorough) x annotated-item corpora (0-6 items x 0-6 '
-        'annotations, present/excluded, repeated terms, terms at any depth) x base in {None, 2, 10, 1.5} x use_pseudocount x '
+        'annotations, present/excluded, repeated terms, terms at any depth) x base in {None, 2, 10, 2.0, 10.0, 1.5, e, 2.5, 10.5, 3, 16, 1.0001, 1000} x use_pseudocount x '
         'module_root in {None, any node}. The model returns integer counts and the population; checked: key set equal to the model\'s, '
         'each IC within 1e-9 (relative) of -log_base(c/p), (module) root IC == 0, no IC < 0, IC non-decreasing along every is_a edge '
         'inside the key set, and the result unchanged when items are shuffled or excluded annotations are dropped. Non-trivial: some '
@@ -28,6 +28,9 @@ def build_world(edges, items_spec):
         al = [SimpleHpoDiseaseAnnotation(TermId.from_curie(c), 1 if present else 0, 1, (), ()) for c, present in anns]
         diseases.append(SimpleHpoDisease(TermId.from_curie(f'OMIM:{100000 + i}'), f'd{i}', al, ()))
     return onto, SimpleHpoDiseases(diseases, 'v2')
+
+
+BASES = [None, None, None, 2, 10, 1.5, 2.0, 10.0, math.e, 2.5, 10.5, 3, 16, 2.9999, 1.0001, 1000]
 
 
 def impl_ic(edges, items_spec, base, module, pseudo):
@@ -115,7 +118,7 @@ def random_case(rng, nmax):
             used.add(t)
             anns.append((t, rng.random() < 0.7))
         items.append(anns)
-    return {'edges': edges, 'items': items, 'base': rng.choice([None, None, 2, 10, 1.5]),
+    return {'edges': edges, 'items': items, 'base': rng.choice(BASES),
             'module': rng.choice([None, None] + labels), 'pseudo': rng.random() < 0.4}
 
 
